@@ -98,7 +98,7 @@ class HistGen(object):
         if weights:
             self.w.update(weights)
         self.dollar_values = 0.0
-        self.slice_proj = 0.0     # share of find_one_and_* projections that are a $slice
+        self.slice_proj = 0.0     # share of find_one / find_one_and_* projections that hold $slice
         self.shadow = []          # rough picture of the documents, to aim filters and updates
         self.index_names = []
         self.now = T0
@@ -230,7 +230,44 @@ class HistGen(object):
             return {self.r.choice(['a', 'b']): self.r.choice([1, 2, None, 'x'])}
         return self.filt()
 
+    # `$slice` arguments of a projection, by what the library makes of them on an array
+    SLICE_ARGS = (
+        [1, -1, 2, 0, 3, -3, True],                            # a count: never refused
+        [[0, 1], [1, 2], [-1, 1], [-5, 2], [2, 5]],            # [skip, limit], limit positive
+        [[1, 0], [0, -1], [-2, 0], [0, 0], [3, -2]],           # [skip, limit], limit not positive
+        [[1], [1, 2, 3], [], 1.5, 'x', None, {'k': 1}],        # no count, no [skip, limit] pair
+        # a pair with something that is no int: cannot be compared, or cut only when min / max
+        # happen to leave int bounds behind (skip + limit beyond the end, a skip far before it)
+        [[0, 'x'], [0, 1.5], [1.5, 1], ['x', 1], [0, None], [-2.5, 1], [0, 2.5], [1, 0.5],
+         [-1.5, 2.5]],
+    )
+
+    def slice_projection(self):
+        """a projection with `$slice` fields, refused or not DEPENDING ON THE DOCUMENT it meets:
+        every form of the argument (count, [skip, limit] with a limit on either side of zero,
+        unsupported values, pairs of the wrong type), on fields the documents of the history hold
+        (arrays or not) or lack, alone or next to `_id` / plain fields / a second `$slice`"""
+        r = self.r
+        d = self.some_doc()
+        held = [f for f in (d or {}) if f != '_id']
+        proj = {}
+        for _ in range(r.choice([1, 1, 1, 2])):
+            f = r.choice(held) if held and r.random() < 0.75 else r.choice(gen.FIELDS)
+            proj[f] = {'$slice': copy.deepcopy(r.choice(r.choice(self.SLICE_ARGS)))}
+        x = r.random()
+        if x < 0.15:
+            proj = dict([('_id', r.choice([0, 1]))] + list(proj.items()))
+        elif x < 0.3:
+            f = r.choice(gen.FIELDS)
+            if f not in proj:
+                proj[f] = r.choice([1, 1, 0])
+        elif x < 0.35:
+            proj['_id'] = 0
+        return proj
+
     def projection(self):
+        if self.slice_proj and self.r.random() < self.slice_proj:
+            return self.slice_projection()
         x = self.r.random()
         if x < 0.45:
             return None
@@ -242,9 +279,6 @@ class HistGen(object):
             return {self.r.choice(gen.FIELDS): 1}
         if x < 0.9:
             return {self.r.choice(gen.FIELDS): 0}
-        if x < 0.9 + self.slice_proj:
-            # refused or not depending on the document: $slice of a field that is no array
-            return {self.r.choice(gen.FIELDS): {'$slice': self.r.choice([1, -1, 2])}}
         return {'_id': 0, 'zz': 1}
 
     def sort(self):
